@@ -85,8 +85,8 @@ Section Chain.
     exists e, nth_error h (N.to_nat (v - 1)) = Some e /\ v_man e = m /\ 1 <= v.
   Proof.
     intros h v m H. unfold nth_man in H. destruct v as [|p]; [discriminate|].
-    destruct (nth_error h (N.to_nat (N.pos p - 1))) as [e|] eqn:E; [|discriminate]. cbn [option_map] in H. inversion H; subst.
-    exists e. split; [exact E | split; [reflexivity | lia]].
+    destruct (nth_error h (N.to_nat (N.pos p - 1))) as [e|]; [|discriminate]. cbn [option_map] in H. inversion H; subst.
+    exists e. split; [reflexivity | split; [reflexivity | lia]].
   Qed.
   (* the chain between a read version and the latest version of a good history *)
   Lemma hist_chain : forall h rv mr cur, HistOk h -> nth_man h rv = Some mr -> latest h = Some cur ->
